@@ -357,7 +357,7 @@ Lemma ingest_cat : forall c b bytes s s',
 Proof.
   intros c b bytes s s' I C W. unfold ingest.
   destruct (c_max_wal_bytes c <? wal_size s); [discriminate|].
-  destruct (prepare (c_seed c) b (tabs s) [] []) as [[[l1 created] colrows]| | | |] eqn:Ep;
+  destruct (prepare code_seed b (tabs s) [] []) as [[[l1 created] colrows]| | | |] eqn:Ep;
     cbn [bind]; try discriminate.
   destruct (prepare_spec s I C _ _ _ _ _ _ _ _ (prep_inv_start s C) (wb_user _ W) Ep) as [P1 Ecol].
   cbn [app] in Ecol. fold (colrows_of (log_names (acked s)) b) in Ecol. subst colrows.
